@@ -28,7 +28,17 @@ MODEL_VALS = None
 
 def date_classes(tier):
     if tier == "quick":
-        return [(d, d) for d in gt.QUICK_DATES + [datetime.date(2022, 1, 1), datetime.date(2025, 1, 1)]], None
+        ds = set(gt.QUICK_DATES + [datetime.date(2022, 1, 1), datetime.date(2025, 1, 1)])
+        # both sides of every date at which a contribution rule of the current tree starts or ends (>= 2015)
+        one = datetime.timedelta(days=1)
+        for f in gt.all_internal_functions().values():
+            if "social_insurance_contributions" not in (getattr(f, "__module__", "") or ""):
+                continue
+            info = getattr(f, "__info__", {}) or {}
+            for b in (info.get("start_date"), (info["end_date"] + one) if info.get("end_date") and info["end_date"].year < 2090 else None):
+                if b and datetime.date(2015, 1, 1) < b <= datetime.date(2030, 1, 1):
+                    ds |= {b, b - one}
+        return [(d, d) for d in sorted(ds)], None
     from gsv import dateprobe
     regs, st = dateprobe.explore(datetime.date(2015, 1, 1), last_entry_date(), check_endpoints=False)
     return [(r.first, r.rep) for r in regs], st
@@ -222,7 +232,7 @@ def run(tier):
     n_ok = ck.extra.get("distinct_slices", 0)
     ck.bounds = {"date_classes": len(classes), "distinct_slices": n_ok, "persons": 1,
                  "wage": "all non-negative reals (two copies)", "eps": "1e-6",
-                 "window": "quick: 6 fixed dates >= 2015; thorough: every date region >= 2015-01-01 (concolic exploration, z3 coverage)"}
+                 "window": "quick: 8 fixed dates >= 2015 and both sides of every start/end date of a contribution rule; thorough: every date region >= 2015-01-01 (concolic exploration, z3 coverage)"}
     if st:
         ck.extra["date_exploration"] = {k: v for k, v in st.items() if k != "leaks"}
     ck.assumptions = ["inputs within documented ranges (money >= 0, alter 0..100, children 0..10)",
